@@ -13,7 +13,9 @@ in datatypes.c).
                  member accesses, array subscripts, casts and parentheses, is a variable
                  with static storage duration (file scope or `static` local) that is not
                  const-qualified; plus passing such a variable's address (or the array
-                 itself) to memset / memcpy / memmove / snprintf-style writers.
+                 itself) to memset / memcpy / memmove / snprintf-style writers; plus (escape rule)
+                 passing `&g...` or a static-storage array to ANY callee through a parameter whose
+                 pointee type is not const.
   debug-only   = inside the then-branch of `if (<module>.on)` — the expansion of
                  debug_print / debug_print0 — where <module> is a global debug module.
   indirect call= call through a struct field or function pointer: resolved to every
@@ -114,6 +116,23 @@ class Analyzer:
                 return g
         return None
 
+    def escaping_global(self, arg):
+        qt = arg.get("type", {}).get("qualType", "") if isinstance(arg, dict) else ""
+        if "*" not in qt or qt.startswith("const "):
+            return None
+        n = arg
+        while isinstance(n, dict):
+            k = n.get("kind")
+            if k == "UnaryOperator" and n.get("opcode") == "&":
+                return self.global_target(n["inner"][0])
+            if k == "ImplicitCastExpr" and n.get("castKind") == "ArrayToPointerDecay":
+                return self.global_target(n["inner"][0])
+            if k in ("ImplicitCastExpr", "ParenExpr", "CStyleCastExpr"):
+                n = (n.get("inner") or [None])[0]
+                continue
+            return None
+        return None
+
     def analyze_fn(self, fn):
         name = fn["name"]
         self.fn_defs.add(name)
@@ -158,6 +177,12 @@ class Analyzer:
                             (DW if dbg else W).add(g[0])
                 elif not dbg:
                     self.indirect[name] = True
+                # escape rule: handing the address of a static-storage variable (or an array with static storage,
+                # which decays to its address) to any callee through a pointer-to-non-const parameter counts as a write
+                for a in inner[1:]:
+                    g = self.escaping_global(a)
+                    if g and not g[1]:
+                        (DW if dbg else W).add(g[0])
             for ch in n.get("inner", []) or []:
                 visit(ch, dbg)
         visit(fn, False)
